@@ -9,7 +9,7 @@ from .. import quat, stubs, sym
 from ..sarr import SArr, patched, sarr
 from ..sym import R, ite, real
 from . import mineral_h as mh
-from .common import all_eq, eq, np_installed, pydrex_modules, sample
+from .common import all_eq, eq, np_installed, pydrex_modules, sample, only_path
 
 TIMEOUT_MS = {"quick": 60000, "thorough": 300000}
 
@@ -48,7 +48,7 @@ def t_apply_gbs(sess, n_grains):
         paths, info = sym.explore(fn)
     if len(paths) != 1 or paths[0].exc is not None:
         raise sym.HarnessError(f"unexpected paths {paths} {info}")
-    p = paths[0]
+    p = only_path(sess, paths)
     cur0, f0, prev0, chi, o, fr, prev_after = p.value
     pc = p.pc
     tag = f"apply_gbs[N={N}]"
@@ -121,7 +121,7 @@ def t_call_site(sess, n_grains, steps):
         paths, info = sym.explore(fn)
     if len(paths) != 1 or paths[0].exc is not None:
         raise sym.HarnessError(f"unexpected paths {paths} {info}")
-    p = paths[0]
+    p = only_path(sess, paths)
     m, snaps, params, start, calls, Fm = p.value
     pc = p.pc
     tag = f"call site[N={N}]"
